@@ -475,9 +475,14 @@ func (ex *Exec) convert(st *State, x *ssa.Convert) Val {
 	case fs == sSlice && ts == sStr:
 		et := from.Underlying().(*types.Slice).Elem()
 		arr := sel(ex.arrComp(st.heap, et), sliceBase(v))
-		s := ex.uninterp(st, "bytes_str", sStr, arr, sliceOff(v), sliceLen(v))
+		s := ex.define(st, "s", ex.uninterp(st, "bytes_str", sStr, arr, sliceOff(v), sliceLen(v)))
 		st.assume(eq(mk(sBV64, "str.len_", s), sliceLen(v)))
-		return ex.define(st, "s", s)
+		// the string holds the bytes of the slice
+		ex.counter++
+		k := fmt.Sprintf("bsq_%d", ex.counter)
+		st.log = append(st.log, fmt.Sprintf("(assert (forall ((%s (_ BitVec 64))) (! (=> (bvult %s %s) (= (str.at_ %s %s) (select %s (bvadd %s %s)))) :pattern ((str.at_ %s %s)))))",
+			k, k, sliceLen(v).S, s.S, k, arr.S, sliceOff(v).S, k, s.S, k))
+		return s
 	case fs == sInt && ts == sInt:
 		return v
 	case fbv && ts == sStr:
